@@ -300,6 +300,12 @@ def check_case(ctx, model, table, plan):
         got = [list(e) for e in LOG]
         ctx.count("runs.%s" % api)
         ctx.count("calls.observed", len(got))
+        if api == "writer" and model.kind == "fixed":
+            # whether a check sees a fixed-width value before or after padding is not part of the protocol
+            for log in (got, want):
+                for event in log:
+                    if event[0] == "check_row":
+                        event[2] = [v.rstrip(" ") if isinstance(v, str) else v for v in event[2]]
         resets_ok, late_resets, rest = normalise(got, names)
         if limit is not None or any(e[0] == "validated_value" and e[2].startswith("REJ") for e in want):
             nontrivial = True
